@@ -2,7 +2,7 @@ package cdc
 
 // C25 correspondence + spec oracle: the real cdc.Service (real batcher, real Bolt FIFO, real
 // HTTP sink) fed by the real db.CDCStreamer, with a recording HTTP endpoint, against the Lean
-// model `cdc` (RqModel/Model/Cdc.lean).
+// model `cdcpipe` (RqModel/Model/CdcPipe.lean).
 //
 // The environment applies generated log entries (single/multi statement, with/without
 // transaction, statements with no events), endpoint outages, leadership changes, HWM
@@ -924,12 +924,12 @@ func TestVerifC25(t *testing.T) {
 			// one more try with a much longer stability window before calling it a harness problem
 			h = c25RunHistory(t, root, i, b, tick, ops, 40)
 			if !h.ok {
-				rep.Disagree(vfDisagreement{Component: "cdc", Ops: vfTrunc(h.ops), Impl: vfTrunc(h.out), At: len(h.out) - 1, Note: "the real service never reached a quiescent point"})
+				rep.Disagree(vfDisagreement{Component: "cdcpipe", Ops: vfTrunc(h.ops), Impl: vfTrunc(h.out), At: len(h.out) - 1, Note: "the real service never reached a quiescent point"})
 				continue
 			}
 		}
 		// model check of this history alone; on a mismatch re-run with a long stability window
-		if mo, err := vfModel("cdc", h.ops); err == nil && vfFirstDiff(h.out, mo) >= 0 {
+		if mo, err := vfModel("cdcpipe", h.ops); err == nil && vfFirstDiff(h.out, mo) >= 0 {
 			h2 := c25RunHistory(t, root, i, b, tick, ops, 40)
 			if h2.ok {
 				h = h2
@@ -984,5 +984,5 @@ func TestVerifC25(t *testing.T) {
 			rep.Sample(map[string]interface{}{"ops": vfTrunc(h.ops), "impl": vfTrunc(h.out)})
 		}
 	}
-	rep.vfCompareSegments("cdc", segOps, segImpl)
+	rep.vfCompareSegments("cdcpipe", segOps, segImpl)
 }
